@@ -17,7 +17,7 @@ import (
 // additions and max() calls.
 func c01GridWidth(c *core.Check) {
 	p := c.Prog
-	r := c.Rule("R25", "wrapTable: every counter stored into a GridX field (column boxes, column groups, cells) is connected, through merges, additions and max calls, with the grid width handed to collapseTableBorders: no numbered column lies outside the border grid", 3)
+	r := c.Rule("R25", "wrapTable: every counter stored into a GridX field (column boxes, column groups, cells) is connected, through merges, additions and max calls, with the grid width handed to collapseTableBorders: no numbered column lies outside the border grid", 1)
 	fn := p.Fn("html/boxes", "wrapTable")
 	if fn == nil {
 		r.Anchor("html/boxes.wrapTable")
